@@ -112,6 +112,22 @@ pub fn c15(opts: &Opts, out: &mut Out) {
             }
         }
     }
+    // (a'') every value of the first byte, on otherwise well-formed encodings of each degree
+    for tag in 0u16..=255 {
+        for d in [1u8, 2, 6] {
+            let mut b = build(d, 1 + (tag as usize % 3), &mut rng);
+            b[0] = tag as u8;
+            emit(out, "tag-sweep", &b, &mut counts);
+        }
+        // and with the body length that the low nibble / low three bits of the tag would call for
+        for dd in [(tag & 0x0f) as u8, (tag & 0x07) as u8, (tag >> 4) as u8] {
+            if (1..=6).contains(&dd) && dd as u16 != tag {
+                let mut b = build(dd, 2, &mut rng);
+                b[0] = tag as u8;
+                emit(out, "tag-sweep-masked", &b, &mut counts);
+            }
+        }
+    }
     // (a') many rounds: the codec accepts any k >= 1 whatever parameters exist; serde must agree at every size
     for d in 1u8..=6 {
         for k in [5usize, 6, 7, 8, 9, 10, 11, 12, 16, 31, 32, 33, 63, 64, 65, 100, 200] {
